@@ -4,6 +4,7 @@
     q <hex s>        quote `s`, read the result back           obs: `<hex quoted> <fields>`   spec: ok / FAIL:…
     w <hex text>     read back arbitrary argument text          obs: `<fields>`                spec: -
     d <hex text>     the same for arguments of a declaration utility  obs: `<fields>`            spec: -
+    v s:<hex> | a:<hex>,…  `Value::quote` of a scalar / array     obs: `<hex quoted>`            spec: -
     c <code point>   character classes                          obs: `ws=… needs=… blank=… delim=…`  spec: -
     L <listing case> (see Listing.lean)
 
@@ -42,6 +43,17 @@ def runD (t : String) : String :=
   | none => "bad-case\t-"
   | some s => s!"{showFields (readBackDecl s)}\t-"
 
+/-- `v s:<hex>` / `v a:<hex>,…` : `Value::quote` -/
+def runV (t : String) : String :=
+  match t.splitOn ":" with
+  | ["s", h] => match decChars h with
+    | some s => s!"{encChars (quote s)}\t-"
+    | none => "bad-case\t-"
+  | ["a", hs] => match Listing.decHexList hs with
+    | some vs => s!"{encChars (Listing.quoteArray vs)}\t-"
+    | none => "bad-case\t-"
+  | _ => "bad-case\t-"
+
 def runC (t : String) : String :=
   match t.toNat? with
   | none => "bad-case\t-"
@@ -54,6 +66,7 @@ def runLine (line : String) : String :=
   | ["q", t] => runQ t
   | ["w", t] => runW t
   | ["d", t] => runD t
+  | ["v", t] => runV t
   | ["c", t] => runC t
   | "L" :: rest => Listing.runL rest
   | _ => "bad-case\t-"
